@@ -314,6 +314,10 @@ class ConnTap:
                         'msw': sorted(int(i) for i in ss.Bus.msw_island),
                         'island_sets': [sorted(int(b) for b in s) for s in ss.Bus.island_sets],
                         'line_u': np.array(ss.Line.u.v, dtype=float).copy(),
+                        # addresses whose residual / Jacobian rows are neutralised for isolated buses
+                        'neutral_a': sorted(int(k) for k in np.ravel(getattr(ss.Bus, 'islanded_a', []))),
+                        'neutral_v': sorted(int(k) for k in np.ravel(getattr(ss.Bus, 'islanded_v', []))),
+                        'bus_a': [int(k) for k in ss.Bus.a.a], 'bus_v': [int(k) for k in ss.Bus.v.a],
                         })
             return ret
         ss.connectivity = connectivity
